@@ -355,17 +355,23 @@ func vmRowsNext(rows *sql.Rows) bool {
 		return false
 	}
 	if r.i+1 >= len(r.rows) {
-		// end of the result set: the iteration itself may have failed here
+		// end of the result set: the fetch that finds the end may itself fail
 		if vmSQLFault(vmOpNext) {
 			r.err = vmSQLErr
 		}
+		// database/sql closes the driver rows as soon as Next reports the end (or an
+		// error); a failure of that close surfaces through Err() when nothing failed before
 		r.closed = true
+		if vmSQLFault(vmOpClose) && r.err == nil {
+			r.err = vmSQLErr
+		}
 		return false
 	}
 	if vmSQLFault(vmOpNext) {
 		// fetching the next row failed: Next reports false and Err() is set
 		r.err = vmSQLErr
 		r.closed = true
+		vmSQLFault(vmOpClose) // the driver rows are closed; that close cannot add an error
 		return false
 	}
 	r.i++
